@@ -93,9 +93,40 @@ def run_index_case(case, res, what, prop):
                 failures.append((f'after-flush:{field}', dict(height=h, **_d(detail))))
             res.count('observations')
         w.on_full_flush = on_flush
-        w.start_sync()
+        # stops: the daemon's chain first ends at these heights - the server catches up there
+        # (and re-opens its databases for serving the first time); 'restart': it is stopped
+        # and started again at that point
+        targets = [(g, kind) for g, kind in case.get('stops', ()) if 0 <= g < len(blocks) - 1]
+        targets.append((len(blocks) - 1, 'end'))
+        started = False
         try:
-            w.run_until_caught_up()
+            for g, kind in targets:
+                w.daemon.set_chain(blocks[:g + 1])
+                if not started:
+                    w.start_sync()
+                    started = True
+                    w.run_until_caught_up()
+                else:
+                    w.poll()
+                if kind == 'end':
+                    break
+                res.count('intermediate_catch_ups')
+                try:
+                    obs = observe.observe(w, ref_full, what=what)
+                    for field, detail in observe.compare(obs, observe.ref_at(blocks, g, ACTIVATION), what):
+                        failures.append((f'caught-up-at-stop:{field}', dict(height=g, **_d(detail))))
+                except (world.ReaderBlocked, observe.ReadFailed) as e:
+                    failures.append(('caught-up-at-stop:read-failed', dict(height=g, error=repr(e))))
+                if kind == 'restart':
+                    m = w.machine
+                    w.close(destroy=False)
+                    w = world.World(m, reorg_limit=case.get('limit', 200), activation=ACTIVATION,
+                                    prefetch=case.get('prefetch', 100), chunk_size=case.get('chunk'),
+                                    small_files=case.get('small_files', False))
+                    w.flush_schedule = fmap
+                    w.on_full_flush = on_flush
+                    started = False
+                    res.count('restarts')
         except world.SyncFailed as e:
             failures.append(('sync-failed', dict(error=repr(e.args[0]))))
         except world.Stalled as e:
@@ -159,6 +190,18 @@ def fixed_cases(tier):
     # a block with 253 transactions (3-byte tx count) spending 252 outputs created in one tx
     cases.append(dict(recipes=['big252', 'sweep252'], flush='F-', prefetch=100, limit=200))
     cases.append(dict(recipes=['big252', 'sweep252'], flush='--', prefetch=100, limit=200))
+    # the daemon's chain ends early once or twice (the server catches up, re-opens its databases
+    # for serving, later indexes on while caught up), with and without a restart at that point
+    for rs in (['fan', 'old', 'multi', 'chain2', 'new', 'self'], ['old', 'new', 'old', 'new', 'old', 'new'],
+               ['cb', 'fan', 'chain2', 'old', 'opret', 'empty']):
+        for fl in ('------', 'H-F-H-', 'FFFFFF', '-H--H-') if tier == 'quick' else \
+                [''.join(f) for f in itertools.product('-HF', repeat=6)][::3]:
+            for g in range(0, 6):
+                for kind in ('grow', 'restart'):
+                    cases.append(dict(recipes=rs, flush=fl, prefetch=100, limit=200, stops=[(g, kind)]))
+            for g1, g2 in ((1, 3), (2, 4), (3, 5), (0, 5)):
+                cases.append(dict(recipes=rs, flush=fl, prefetch=100, limit=200,
+                                  stops=[(g1, 'grow'), (g2, 'restart')]))
     # a transaction with more than 65,536 outputs, spends on both sides of the index-width marks
     for fl in ('F-H', '---', '-FF'):
         cases.append(dict(recipes=['wide', 'sweepwide', 'old'], flush=fl, prefetch=100, limit=200))
